@@ -3,7 +3,8 @@
 From Coq Require Import List ZArith Bool Arith Lia.
 From Verif Require Import lib.Wire c03.Int64 c03.Model c03.Spec c03.Witness
      c03.Proofs_Int64 c03.Proofs_Base c03.Proofs_Limiter c03.Proofs_Reach c03.Proofs_Link
-     c03.Proofs_OpsMem c03.Proofs_Hist c03.Proofs_Mon c03.Proofs_Link2 c03.Proofs_Hist2 c03.Proofs_Mon2.
+     c03.Proofs_OpsMem c03.Proofs_Hist c03.Proofs_Mon c03.Proofs_Link2 c03.Proofs_Transfer c03.Proofs_OpsRepar
+     c03.Proofs_SetPeer c03.Proofs_Hist2 c03.Proofs_Mon2.
 Import ListNotations.
 Local Open Scope Z_scope.
 
@@ -101,29 +102,32 @@ Print Assumptions c03_limiter_history.
 
 (* ---- history level: refinement to the abstract holders specification ----------------------
    Proved for every finite history of OpenConnection (any endpoint, incl. the
-   allow-list retry), SetPeer, OpenStream, SetProtocol, SetService,
-   ReserveMemory / ReleaseMemory on connections, streams, nested spans and View
-   scopes, BeginSpan, Done (repeated, on closed owners), and for every
-   configuration with non-negative limits.
+   allow-list retry), SetPeer (incl. transferAllowedToStandard with its deferred
+   undo and the re-charge path of e9a9a54, accepted or refused at any step),
+   OpenStream, SetProtocol, SetService, ReserveMemory / ReleaseMemory on
+   connections, streams, nested spans and View scopes, BeginSpan, Done
+   (repeated, on closed owners), and for every configuration with non-negative
+   limits.
    _partial: the hypothesis [wf_hist2] / [covered_run] (decidable on the trace)
    is (a) what callers must respect (Spec.caller_ok, Spec.no_overflow), (b) no
-   gc step, (c) [no_transfer]: SetPeer is never called with a peer that forces
-   an allow-listed connection back to the standard scopes
-   (transferAllowedToStandard).  (b) and (c) are covered by the correspondence.
-   [run_a] is the abstract holder table the monitor computes. *)
+   gc step.
+   [run_aT] is the abstract holder table the monitor computes: where Spec.astep
+   lists several candidates (a refused SetPeer that had to take the connection
+   off the allow-list) it is the one the model realises, which is the one the
+   monitor picks (c03_trace_holds_partial). *)
 
 (* the simulation invariant (scope map vs holder table, and the per-connection /
    per-stream records) holds after every such history *)
 Theorem c03_invariant_partial : forall c ops,
   cfg_ok c -> wf_hist2 c (init_state c) astate0 ops ->
-  InvL c (run c (init_state c) ops) (run_a c (init_state c) astate0 ops).
+  InvL c (run c (init_state c) ops) (run_aT c (init_state c) astate0 ops).
 Proof. exact history_inv2. Qed.
 Print Assumptions c03_invariant_partial.
 
 (* every scope's six counters equal the sum of what the open holders charged to it hold *)
 Theorem c03_usage_is_sum_of_holders_partial : forall c ops t,
   cfg_ok c -> wf_hist2 c (init_state c) astate0 ops ->
-  use_of (scopes (run c (init_state c) ops)) t = usage_A (run_a c (init_state c) astate0 ops) t.
+  use_of (scopes (run c (init_state c) ops)) t = usage_A (run_aT c (init_state c) astate0 ops) t.
 Proof. exact usage_is_sum2. Qed.
 Print Assumptions c03_usage_is_sum_of_holders_partial.
 
@@ -136,22 +140,53 @@ Proof. exact within_limits2. Qed.
 Print Assumptions c03_nonneg_within_limits_partial.
 
 (* an operation that answers an error changes no counter of any scope and no
-   holder: a refused reservation is undone in every scope, a refused SetPeer /
-   SetProtocol / SetService leaves the connection / stream charged exactly once,
-   to the scopes it was charged to before *)
+   holder: a refused reservation is undone in every scope, a refused SetProtocol
+   / SetService / SetPeer leaves the connection / stream charged exactly once,
+   to the scopes it was charged to before.  [transfers]: the one exception is a
+   SetPeer that first has to move the connection to the standard scopes, see
+   c03_reparent_refused_consistent *)
 Theorem c03_refusal_is_noop_partial : forall c st a o t,
-  cfg_ok c -> InvL c st a -> wf_op2 c st a o ->
+  cfg_ok c -> InvL c st a -> wf_op2 c st a o -> transfers c a o = false ->
   snd (step c st o) <> 0 ->
   match o with ORelease _ _ | ODone _ => False | _ => True end ->
   use_of (scopes (fst (step c st o))) t = use_of (scopes st) t /\
-  holders (anext c st a o) = holders a.
+  anextT c st a o = a.
 Proof. exact refusal_is_noop2. Qed.
 Print Assumptions c03_refusal_is_noop_partial.
+
+(* a refused SetPeer, in every state - also one that had to take the connection
+   off the allow-list (transferAllowedToStandard), refused by system, by
+   transient (deferred undo of the system charge) or afterwards by the peer
+   scope: the invariant holds for the successor, i.e. every scope reads the sum
+   of its holders with the connection charged exactly once to each scope of its
+   parent set, and that set is what it was, or - only when a transfer was
+   needed - {} (the documented intermediate state: charged to no scope but
+   itself) or {system, transient} *)
+Theorem c03_reparent_refused_consistent : forall c st a i q,
+  cfg_ok c -> InvL c st a -> wf_op2 c st a (OSetPeer i q) -> snd (step c st (OSetPeer i q)) <> 0 ->
+  let a' := anextT c st a (OSetPeer i q) in
+  InvL c (fst (step c st (OSetPeer i q))) a' /\
+  (a' = a \/ ((a_par a' (Conn i) = [] \/ a_par a' (Conn i) = [System; Transient]) /\ transfers c a (OSetPeer i q) = true)) /\
+  NoDup (Conn i :: a_par a' (Conn i)).
+Proof. exact reparent_refused_consistent. Qed.
+Print Assumptions c03_reparent_refused_consistent.
+
+(* ... and an accepted SetPeer - also on a connection that a refused transfer
+   left charged to no scope (fix e9a9a54) - leaves it charged to the peer scope
+   and to the system scope (the allow-listed one if it stays allow-listed) *)
+Theorem c03_setpeer_ok_charges : forall c st a i q ac,
+  cfg_ok c -> InvL c st a -> wf_op2 c st a (OSetPeer i q) -> nget (aconns a) i = Some ac ->
+  snd (step c st (OSetPeer i q)) = 0 ->
+  InvL c (fst (step c st (OSetPeer i q))) (anextT c st a (OSetPeer i q)) /\
+  a_par (anextT c st a (OSetPeer i q)) (Conn i) =
+    [Peer q; if ac_allow ac && ep_allowed_peer c q (ac_ep ac) then ASystem else System].
+Proof. exact setpeer_ok_charges. Qed.
+Print Assumptions c03_setpeer_ok_charges.
 
 (* when every holder is closed or holds nothing, every scope reads zero *)
 Theorem c03_release_all_zero_partial : forall c ops t,
   cfg_ok c -> wf_hist2 c (init_state c) astate0 ops ->
-  (forall y h, In (y, h) (holders (run_a c (init_state c) astate0 ops)) -> h_dead h = true \/ h_own h = stat0) ->
+  (forall y h, In (y, h) (holders (run_aT c (init_state c) astate0 ops)) -> h_dead h = true \/ h_own h = stat0) ->
   use_of (scopes (run c (init_state c) ops)) t = stat0.
 Proof. exact release_all_zero2. Qed.
 Print Assumptions c03_release_all_zero_partial.
@@ -166,10 +201,12 @@ Theorem c03_trace_holds_partial : forall c ops,
 Proof. exact monitor_accepts2. Qed.
 Print Assumptions c03_trace_holds_partial.
 
-(* the hypothesis is satisfiable by a history through every covered operation *)
+(* the hypothesis is satisfiable by a history through every covered operation,
+   and by one with a refused allow-list transfer followed by the re-charge *)
 Example covered_nonvacuous :
-  covered_run tour_cfg astate0 [] (model_trace tour_cfg (init_state tour_cfg) (filter (fun o => match o with OGC => false | _ => true end) tour_ops)) = true.
-Proof. vm_compute. reflexivity. Qed.
+  covered_run tour_cfg astate0 [] (model_trace tour_cfg (init_state tour_cfg) (filter (fun o => match o with OGC => false | _ => true end) tour_ops)) = true /\
+  covered_run retry_cfg astate0 [] (model_trace retry_cfg (init_state retry_cfg) retry_ops) = true.
+Proof. vm_compute. split; reflexivity. Qed.
 
 (* ---- regression: histories that refuted the full statement before the repairs ----------- *)
 Definition full_statement : Prop :=
